@@ -1218,6 +1218,9 @@ class ReferenceResolver:
         Returns:
             True (has unresolved crossrefs) or False (else)
         """
+        # A reference resolved with the RREL flag '+p' holds a proxy: the
+        # unresolved references are those of the proxied object.
+        obj = getattr(obj, "_tx_obj", obj)
         if get_model(obj) != self.model:
             return get_model(obj)._tx_reference_resolver.has_unresolved_crossrefs(obj)
         else:
